@@ -107,18 +107,23 @@ Theorem C18_flag_bindings_match :
 Proof. exact (flag_bindings_sound cfg_structs golden_flags flag_sets (eq_refl true <: fc_all_ok cfg_structs golden_flags flag_sets = true)). Qed.
 Print Assumptions C18_flag_bindings_match.
 
-(* F-C18b, refuted clause: the dashboard TLS setting cannot be given through its flag.  BoolFuncFlag.Set
-   never consults its argument, so on the freshly registered flag TrueFunc (the only place that sets
-   webServer.tls from the flags) never runs — in particular not for the argument "true" — while the
-   file keys webServer.tls.certFile / keyFile do enable it.  C18_flag_bindings_match above is the part
-   that holds (the flag is bound where the table says); the harness replays the witness on every run. *)
-Theorem C18_dashboard_tls_flag_refuted : exists s, s = hx "74727565" /\ bff_enables_tls s = false.
-Proof. exists (hx "74727565"). split; reflexivity. Qed.
-Print Assumptions C18_dashboard_tls_flag_refuted.
+(* F-C18b (repaired in /repo: "fix: BoolFuncFlag honours the value it is given"): the dashboard TLS
+   setting given through --dashboard_tls_mode / --dashboard_tls_cert_file / --dashboard_tls_key_file
+   is the setting the file keys webServer.tls.certFile / keyFile give: for every argument strconv.ParseBool
+   reads as true, webServer.tls is the same structure on both paths; for every argument it reads as
+   false, webServer.tls is absent on both; any other argument rejects the command line. *)
+Theorem C18_dashboard_tls_flag_matches_file : forall mode cert key,
+  (bff_parse_bool mode = Some true -> flags_web_tls mode cert key = Some (file_web_tls (Some (cert, key)))) /\
+  (bff_parse_bool mode = Some false -> flags_web_tls mode cert key = Some (file_web_tls None)) /\
+  (bff_parse_bool mode = None -> flags_web_tls mode cert key = None).
+Proof. exact dashboard_tls_flag_matches_file. Qed.
+Print Assumptions C18_dashboard_tls_flag_matches_file.
 
-Theorem C18_dashboard_tls_flag_partial : forall s, bff_enables_tls s = false.
-Proof. intros s. reflexivity. Qed.
-Print Assumptions C18_dashboard_tls_flag_partial.
+(* and the arguments that enable / disable it are exactly ParseBool's spellings *)
+Theorem C18_dashboard_tls_flag_spellings : forall s,
+  (bff_parse_bool s = Some true <-> In s bff_trues) /\ (bff_parse_bool s = Some false <-> In s bff_falses).
+Proof. exact (fun s => conj (bff_parse_bool_true s) (bff_parse_bool_false s)). Qed.
+Print Assumptions C18_dashboard_tls_flag_spellings.
 
 (* ---- validation ---- *)
 
@@ -249,3 +254,9 @@ Example C18_example_template :
     [TText (hx "783d"); TEnv (hx "41"); TText (hx "3b"); TEnv (hx "42"); TPairs (hx "352d362c39") (hx "31352d31362c3139") [PSFirst; PSText (hx "3a"); PSSecond; PSText (hx "20")]]
   = TOk (hx "783d7a3b3c6e6f2076616c75653e353a313520363a313620393a313920").
 Proof. vm_compute. reflexivity. Qed.
+
+Example C18_example_dashboard_tls :
+  flags_web_tls (hx "74727565") (hx "632e70656d") (hx "6b2e70656d") = Some (file_web_tls (Some (hx "632e70656d", hx "6b2e70656d"))) /\
+  flags_web_tls (hx "66616c7365") (hx "632e70656d") (hx "6b2e70656d") = Some None /\
+  flags_web_tls (hx "78") [] [] = None.
+Proof. vm_compute. repeat split. Qed.
